@@ -21,6 +21,8 @@ func NewUniverse(maxDepth int, extra bool) *Universe {
 		// rare third symbol: the value of "a" under another type (a sibling that differs only in
 		// the component type must never be confused with it by a name-keyed table)
 		enc.NewStringComponent(enc.TypeKeywordNameComponent, "a"),
+		// and under a type that equals the generic type modulo 256
+		enc.Component{Typ: 8 + 256, Val: []byte("a")},
 	}
 	if extra {
 		u.Alphabet = append(u.Alphabet,
